@@ -1,7 +1,7 @@
 package sshagent
 
 import (
-	"crypto/ed25519"
+	"flag"
 	"fmt"
 	"io"
 	"log"
@@ -18,6 +18,12 @@ import (
 func TestMain(m *testing.M) {
 	// the agent server logs every failed request through the log package
 	log.SetOutput(io.Discard)
+	if os.Getenv("VF_FUZZING") != "" {
+		// native fuzzing: fewer workers than cores, so that a loaded machine
+		// does not push single executions towards the engine's 10 s limit
+		flag.Parse()
+		flag.Set("test.parallel", "6")
+	}
 	os.Exit(m.Run())
 }
 
@@ -87,5 +93,3 @@ func writeCase(dir string, v []byte) {
 		os.Rename(tmp, filepath.Join(dir, "case.json"))
 	}
 }
-
-var _ = ed25519.PrivateKeySize
